@@ -4,7 +4,8 @@
              key after every operation) and the cleaner's event log.
    spec_ok : the observations satisfy the clauses of the property directly. *)
 From God Require Import Base.Prelude.
-From God Require Export C06.Spec C06.Model.
+From God Require Export C06.Spec C06.Model C06.ModelConc.
+From God Require C18.Conc.
 From Coq Require Import QArith.
 From GodGen Require C06_Gen.
 Local Open Scope Z_scope.
@@ -21,8 +22,13 @@ Inductive xop :=
 
 Record oobs := mkobs { o_res : rres; o_q : nat; o_dump : list (nat * key * (cval * Z)) }.
 
+(* concurrent cases: what the driver saw, in order *)
+Inductive oev := OEv (e : CA.cev) | OStart (t k : nat) | ORet (t : nat).
+Inductive clbl := LStart (t : nat) | LOpen (g : nat) | LCancel (t : nat).
+
 Record case := mkcase {
-  c_level : nat;            (* 0: CachedConn (lib/store/sqlc), 1: cache node, 2: cache cluster *)
+  c_level : nat;            (* 0: CachedConn (lib/store/sqlc), 1: cache node, 2: cache cluster,
+                               3: concurrent calls under a forced schedule (fields c_threads ..) *)
   c_expire : Z;             (* seconds *)
   c_nfexpire : Z;           (* seconds *)
   c_nnodes : nat;
@@ -30,7 +36,13 @@ Record case := mkcase {
   c_ops : list xop;
   c_obs : list oobs;        (* one per op *)
   c_logs : list (list event); (* observed cleaner events per node *)
-  c_tick : Z
+  c_tick : Z;
+  c_threads : list CA.cop;  (* level 3: one call per thread *)
+  c_sched : list clbl;
+  c_events : list oev;      (* observed: query begin/end, SET, DEL, database write, call start/return *)
+  c_cres : list (option (option nat)); (* observed result per thread (None: never ran); Some None = context error *)
+  c_ccache : list (option nat);        (* observed final cache entry per key *)
+  c_cdb : list nat                     (* observed final database per key *)
 }.
 
 Definition universe : list key := [PK 0; PK 1; PK 2; PK 3; IX 0; IX 1; IX 2].
@@ -105,7 +117,7 @@ Definition event_eqb (a b : event) : bool :=
   | _, _ => false
   end.
 
-Definition model_ok (c : case) : bool :=
+Definition model_ok_seq (c : case) : bool :=
   let '(ok, (e, ns)) := model_rows c (init_env, repeat init_node (nnodes c)) (c_ops c) (c_obs c) in
   ok &&
   (* the CachedConn-level driver cannot observe the cleaner (real wheel of another package) *)
@@ -278,7 +290,7 @@ Definition retry_log_ok (tk : Z) (lg : list event) : bool :=
 
 Definition arm_eqb (a b : Z * list key) : bool := (fst a =? fst b) && list_eqb key_eqb (snd a) (snd b).
 
-Definition spec_ok (c : case) : bool :=
+Definition spec_ok_seq (c : case) : bool :=
   let s0 := mkS [] (repeat (false, false, false) (nnodes c)) 0 0 [] [] 0 [] [] in
   let (ok, s) := spec_rows c s0 (c_ops c) (c_obs c) in
   ok &&
@@ -292,3 +304,121 @@ Definition spec_ok (c : case) : bool :=
         list_eqb arm_eqb (map snd (arms_of (snd jl)))
                          (map snd (filter (fun a => Nat.eqb (fst a) (fst jl)) (s_arms s))))
         (combine (seq 0 (List.length (c_logs c))) (c_logs c))).
+
+
+(* ================= concurrent cases (level 3) ================= *)
+Import CA.
+
+Definition to_lbl (l : clbl) : C18.Conc.lbl :=
+  match l with LStart t => C18.Conc.Thr t | LOpen g => C18.Conc.Open g | LCancel t => C18.Conc.Adv t end.
+
+Definition scripts_of (c : case) (t : nat) : list cop :=
+  match nth_error (c_threads c) t with Some o => [o] | None => [] end.
+
+Definition cev_eqb (a b : cev) : bool :=
+  match a, b with
+  | EQBegin t k, EQBegin t' k' | EQEnd t k, EQEnd t' k' | EDel t k, EDel t' k' => Nat.eqb t t' && Nat.eqb k k'
+  | ESet t k v, ESet t' k' v' | EWrite t k v, EWrite t' k' v' => Nat.eqb t t' && Nat.eqb k k' && Nat.eqb v v'
+  | _, _ => false
+  end.
+
+Definition cevents (c : case) : list cev :=
+  flat_map (fun e => match e with OEv x => [x] | _ => [] end) (c_events c).
+
+(* the model replays the forced schedule: one label, then every thread inside a call runs until it is
+   parked or has returned (C18.Conc.replay) *)
+Definition conc_final (c : case) : state :=
+  C18.Conc.replay step busy 24 (seq 0 (List.length (c_threads c))) (map to_lbl (c_sched c)) (init true (scripts_of c)).
+
+Definition model_ok_conc (c : case) : bool :=
+  let s := conc_final c in
+  list_eqb cev_eqb (rev (trace s)) (cevents c) &&
+  list_eqb (option_eqb (option_eqb Nat.eqb))
+           (map (fun t => match t_res (ts s t) with (_, r) :: _ => Some r | [] => None end) (seq 0 (List.length (c_threads c))))
+           (c_cres c) &&
+  list_eqb (option_eqb Nat.eqb) (map (cache s) (seq 0 (List.length (c_ccache c)))) (c_ccache c) &&
+  list_eqb Nat.eqb (map (db s) (seq 0 (List.length (c_cdb c)))) (c_cdb c) &&
+  forallb (fun t => negb (busy s t)) (seq 0 (List.length (c_threads c))).
+
+(* --- the property on the observed history --- *)
+Definition key_of_thread (c : case) (t : nat) : nat := match nth_error (c_threads c) t with Some o => k_key o | None => 0 end.
+Definition gates0 (c : case) (t : nat) : bool :=
+  match nth_error (c_threads c) t with
+  | Some o => Nat.eqb (k_ga o) 0 && Nat.eqb (k_gb o) 0 && Nat.eqb (k_gc o) 0
+  | None => false
+  end.
+Definition is_writer (c : case) (t : nat) : bool :=
+  match nth_error (c_threads c) t with Some o => k_writer o | None => false end.
+
+Record cst := mkcs {
+  x_fl : list nat;              (* keys with a query in flight *)
+  x_db : list (nat * nat);      (* reference database from the observed writes *)
+  x_stale : list nat;           (* keys holding an entry stored by a racing reader (until the next delete) *)
+  x_active : list nat;          (* threads started and not returned *)
+  x_wsince : list (nat * bool); (* reader |-> a write to its key came after its query began *)
+  x_expect : list (nat * nat)   (* reader |-> the row it must return (started alone in a clean period) *)
+}.
+Definition memn (x : nat) (l : list nat) : bool := existsb (Nat.eqb x) l.
+Definition deln (x : nat) (l : list nat) : list nat := filter (fun y => negb (Nat.eqb x y)) l.
+Definition dbv (s : cst) (k : nat) : nat := match alookup Nat.eqb k (x_db s) with Some v => v | None => 0 end.
+
+Definition cspec_step (c : case) (s : cst) (e : oev) : bool * cst :=
+  match e with
+  | OEv (EQBegin t k) =>
+      (* at most one database query in flight per key *)
+      (negb (memn k (x_fl s)),
+       mkcs (k :: x_fl s) (x_db s) (x_stale s) (x_active s) (aset Nat.eqb t false (x_wsince s)) (x_expect s))
+  | OEv (EQEnd t k) => (true, mkcs (deln k (x_fl s)) (x_db s) (x_stale s) (x_active s) (x_wsince s) (x_expect s))
+  | OEv (ESet t k v) =>
+      let raced := match alookup Nat.eqb t (x_wsince s) with Some b => b | None => true end in
+      (true, mkcs (x_fl s) (x_db s) (if raced then k :: x_stale s else x_stale s) (x_active s) (x_wsince s) (x_expect s))
+  | OEv (EWrite t k v) =>
+      (* (a writer that has not returned is in x_active: nothing is expected of reads that start meanwhile;
+          once it HAS returned its write must have been followed by its delete) *)
+      (true, mkcs (x_fl s) (aset Nat.eqb k v (x_db s)) (x_stale s) (x_active s)
+                  (map (fun tb => if Nat.eqb (key_of_thread c (fst tb)) k then (fst tb, true) else tb) (x_wsince s)) (x_expect s))
+  | OEv (EDel t k) => (true, mkcs (x_fl s) (x_db s) (deln k (x_stale s)) (x_active s) (x_wsince s) (x_expect s))
+  | OStart t k =>
+      let alone := negb (existsb (fun u => Nat.eqb (key_of_thread c u) k) (x_active s)) in
+      let ex := if alone && negb (memn k (x_stale s)) && gates0 c t && negb (is_writer c t)
+                then [(t, dbv s k)] else [] in
+      (true, mkcs (x_fl s) (x_db s) (x_stale s) (t :: x_active s) (x_wsince s) (ex ++ x_expect s))
+  | ORet t => (true, mkcs (x_fl s) (x_db s) (x_stale s) (deln t (x_active s)) (x_wsince s) (x_expect s))
+  end.
+
+Fixpoint cspec_run (c : case) (s : cst) (es : list oev) : bool * cst :=
+  match es with
+  | [] => (true, s)
+  | e :: r => let (ok, s') := cspec_step c s e in if ok then cspec_run c s' r else (false, s')
+  end.
+
+Definition cancelled_keys (c : case) : list nat :=
+  flat_map (fun l => match l with LCancel t => [key_of_thread c t] | _ => [] end) (c_sched c).
+Definition written_vals (c : case) (k : nat) : list nat :=
+  flat_map (fun e => match e with OEv (EWrite _ k' v) => if Nat.eqb k k' then [v] else [] | _ => [] end) (c_events c).
+Definition qbegins (c : case) (k : nat) : nat :=
+  List.length (filter (fun e => match e with OEv (EQBegin _ k') => Nat.eqb k k' | _ => false end) (c_events c)).
+Definition has_writer (c : case) (k : nat) : bool := existsb (fun o => k_writer o && Nat.eqb (k_key o) k) (c_threads c).
+
+Definition spec_ok_conc (c : case) : bool :=
+  let (ok, s) := cspec_run c (mkcs [] [] [] [] [] []) (c_events c) in
+  ok &&
+  (* a read that started alone, after every earlier operation on its key had finished and the last write had
+     been followed by its delete, returns the database's current row *)
+  forallb (fun tv => match nth (fst tv) (c_cres c) None with
+                     | Some (Some v) => Nat.eqb v (snd tv)
+                     | _ => false
+                     end) (x_expect s) &&
+  (* every reader is served: a value the database held, or the context error if a context of its key was cancelled *)
+  forallb (fun t => if is_writer c t then true else
+             match nth t (c_cres c) None with
+             | None => true
+             | Some None => memn (key_of_thread c t) (cancelled_keys c)
+             | Some (Some v) => Nat.eqb v 0 || memn v (written_vals c (key_of_thread c t))
+             end) (seq 0 (List.length (c_threads c))) &&
+  (* the database is shielded: without writes and cancellations a key is queried at most once *)
+  forallb (fun k => if has_writer c k || memn k (cancelled_keys c) then true else Nat.leb (qbegins c k) 1)
+          (seq 0 (List.length (c_cdb c))).
+
+Definition model_ok (c : case) : bool := if Nat.eqb (c_level c) 3 then model_ok_conc c else model_ok_seq c.
+Definition spec_ok (c : case) : bool := if Nat.eqb (c_level c) 3 then spec_ok_conc c else spec_ok_seq c.
